@@ -73,7 +73,11 @@ def generate(seed, tier, index=None):
     genome = tw.genome(w, nmax=4)[:4]
     frags = tw.library(w, genome, method, n_target=w.randint(4, 40 if tier == 'thorough' else 24))
     no_rejects = w.random() < 0.3
-    if special and frags:
+    if tier == 'thorough' and index is not None and index % 40 == 11:
+        # scaffold-rich assembly (more than 200 read-carrying small contigs) through the multiprocess pipeline; only a sample of the fault family is run
+        genome, frags = tw.many_small_contigs(w, method, n=w.randint(205, 240))
+        mp, special = True, 'many-small-contigs'
+    elif special and frags:
         # layouts in which a fault-free run must still deliver every record: a contig holding only placed-unmapped reads;
         # two small contigs sharing a job, the last of which holds only rejected fragments (with --no_rejects its task writes nothing)
         if special == 'tail-rejects':
@@ -95,7 +99,7 @@ def generate(seed, tier, index=None):
         frags = [f for f in frags if f['ctg'] != ci] + [o]
     params = {'method': method, 'encoded': w.random() < 0.7, 'lib': 'LIB', 'stale': stale, 'tier': tier, 'no_rejects': no_rejects, 'special_layout': special,
               # the input's index was left over from an earlier version of the file (N simulated seconds older) in two of the eight rotations
-              'index_state': ['stale', w.choice([1, 30, 3600])] if h % 8 in (2, 5) else None}
+              'index_state': [['stale', 'stale-empty'][(h // 8 + h) % 2], w.choice([1, 30, 3600])] if h % 8 in (2, 5) else None}
     mode = {'mp': mp, 'no_rejects': params['no_rejects'], 'isolation': 'fork' if (mp and (h >> 3) % 2) else 'inproc', 'name': 'multi' if mp else 'single', 'width': st.schedule.randint(1, 3), 'schedule': {'policy': 'seeded'}, 'seed': seed}
     return {'params': params, 'genome': genome, 'workload': frags, 'mode': mode}   # 'plans' absent -> enumerated by execute()
 
@@ -208,6 +212,8 @@ def execute(case):
         plans = case.get('plans')
         if plans is None:
             plans = enumerate_plans(crossings, bres.get('seam_calls', {}), len(bres.get('jobs', [])), mode.get('mp'), p.get('tier', 'quick'), bytes_written)
+        if len(case['genome']) > 50 and case.get('plans') is None:
+            plans = plans[::max(1, len(plans) // 24)]
         if case.get('slice') and case.get('plans') is None:     # slicing applies to the enumerated family only
             j, J = case['slice']
             plans = plans[j::J]
